@@ -113,6 +113,10 @@ enum Shape {
     Mixed,
     MultiBad,
     StructBad,
+    /// like MultiBad / StructBad, but the failing element is a descriptor whose `dup` fails: the process has run out of
+    /// descriptors (EMFILE) by the time it is marshalled
+    MultiFull,
+    StructFull,
 }
 
 impl Shape {
@@ -129,6 +133,8 @@ impl Shape {
             Shape::Mixed => "mixed".into(),
             Shape::MultiBad => "multibad".into(),
             Shape::StructBad => "structbad".into(),
+            Shape::MultiFull => "multifull".into(),
+            Shape::StructFull => "structfull".into(),
         }
     }
     fn parse(s: &str) -> Option<Shape> {
@@ -142,6 +148,8 @@ impl Shape {
             "mixed" => Shape::Mixed,
             "multibad" => Shape::MultiBad,
             "structbad" => Shape::StructBad,
+            "multifull" => Shape::MultiFull,
+            "structfull" => Shape::StructFull,
             _ => {
                 if let Some(n) = s.strip_prefix("vec") {
                     Shape::Vec(n.parse().ok()?)
@@ -156,7 +164,7 @@ impl Shape {
     /// number of handle items the shape consumes
     fn nhandles(&self) -> usize {
         match self {
-            Shape::Plain | Shape::Struct | Shape::Variant | Shape::Dict | Shape::MultiBad | Shape::StructBad => 1,
+            Shape::Plain | Shape::Struct | Shape::Variant | Shape::Dict | Shape::MultiBad | Shape::StructBad | Shape::MultiFull | Shape::StructFull => 1,
             Shape::Raw => 0,
             Shape::Pair => 2,
             Shape::Vec(n) | Shape::Multi(n) => *n,
@@ -174,7 +182,7 @@ impl Shape {
             Shape::Dict => vec![PShape::Dict],
             Shape::Multi(n) => vec![PShape::H; *n],
             Shape::Mixed => vec![PShape::H, PShape::Struct, PShape::Vec(1)],
-            Shape::MultiBad | Shape::StructBad => vec![],
+            Shape::MultiBad | Shape::StructBad | Shape::MultiFull | Shape::StructFull => vec![],
         }
     }
 }
@@ -223,6 +231,8 @@ enum OpE {
     Take(usize),
     Get(usize),
     Dup(usize),
+    /// `dup()` while the process has no descriptor left (EMFILE)
+    DupFail(usize),
     CloneH(usize),
     DropH(usize),
 }
@@ -268,6 +278,7 @@ fn tok(op: &OpE) -> String {
         OpE::Take(h) => format!("t{}", h),
         OpE::Get(h) => format!("g{}", h),
         OpE::Dup(h) => format!("d{}", h),
+        OpE::DupFail(h) => format!("D{}", h),
         OpE::CloneH(h) => format!("c{}", h),
         OpE::DropH(h) => format!("dh{}", h),
     }
@@ -344,6 +355,7 @@ fn parse_tok(t: &str) -> Option<OpE> {
         "t" => OpE::Take(n),
         "g" => OpE::Get(n),
         "d" => OpE::Dup(n),
+        "D" => OpE::DupFail(n),
         "c" => OpE::CloneH(n),
         _ => return None,
     })
@@ -471,6 +483,45 @@ fn body_indices(msg: &MarshalledMessage) -> Result<Vec<u32>, String> {
         walk(&sig, &mut si, buf, &mut pos, &mut out)?;
     }
     Ok(out)
+}
+
+/// RLIMIT_NOFILE soft limit: with 0 every system call that would create a descriptor fails with EMFILE; the open
+/// descriptors are not affected
+fn nofile_soft() -> libc::rlimit {
+    let mut r = libc::rlimit { rlim_cur: 0, rlim_max: 0 };
+    unsafe { libc::getrlimit(libc::RLIMIT_NOFILE, &mut r) };
+    r
+}
+fn set_nofile_soft(cur: libc::rlim_t) {
+    let mut r = nofile_soft();
+    r.rlim_cur = cur;
+    unsafe { libc::setrlimit(libc::RLIMIT_NOFILE, &r) };
+}
+/// runs `f` while no descriptor can be created
+fn without_free_descriptors<R>(f: impl FnOnce() -> R) -> R {
+    let old = nofile_soft().rlim_cur;
+    set_nofile_soft(0);
+    let r = f();
+    set_nofile_soft(old);
+    r
+}
+
+/// A value (one byte on the wire) whose marshalling uses up the process's descriptors: whatever is marshalled after
+/// it cannot `dup`. The caller restores the limit after the push.
+struct TripWire;
+impl rustbus::Signature for TripWire {
+    fn signature() -> rustbus::signature::Type {
+        <u8 as rustbus::Signature>::signature()
+    }
+    fn alignment() -> usize {
+        1
+    }
+}
+impl rustbus::Marshal for TripWire {
+    fn marshal(&self, ctx: &mut rustbus::wire::marshal::MarshalContext) -> Result<(), rustbus::wire::errors::MarshalError> {
+        set_nofile_soft(0);
+        0u8.marshal(ctx)
+    }
 }
 
 struct RawW(RawFd);
@@ -852,6 +903,22 @@ impl<'a> Hist<'a> {
                 },
                 _ => ("ill".into(), After::Nothing),
             },
+            OpE::DupFail(h) => match self.handles.get(*h) {
+                Some(Some(hd)) => {
+                    let r = without_free_descriptors(|| hd.dup());
+                    self.hits.push("dup_emfile".into());
+                    match r {
+                        Ok(n) => {
+                            // cannot happen while the limit is 0; keep the books right anyway
+                            self.violation("dup() succeeded although the process could not get a descriptor".into());
+                            self.handles.push(Some(n));
+                            ("ok".into(), After::Nothing)
+                        }
+                        Err(_) => ("err".into(), After::Nothing),
+                    }
+                }
+                _ => ("ill".into(), After::Nothing),
+            },
             OpE::CloneH(h) => match self.handles.get(*h) {
                 Some(Some(hd)) => {
                     let c = hd.clone();
@@ -906,6 +973,7 @@ impl<'a> Hist<'a> {
         let old_buf = body.msg.get_buf().to_vec();
         let old_sig = body.msg.get_sig().to_string();
         let mb: &mut MarshalledMessageBody = &mut body.msg.body;
+        let nofile_before = nofile_soft().rlim_cur;
         let r = guard(|| match shape {
             Shape::Plain => mb.push_param(&hs[0]),
             Shape::Raw => {
@@ -927,7 +995,13 @@ impl<'a> Hist<'a> {
             Shape::Mixed => mb.push_param3(&hs[0], (9u32, &hs[1]), &hs[2..3]),
             Shape::MultiBad => mb.push_param2(&hs[0], "a\0b"),
             Shape::StructBad => mb.push_param((&hs[0], "a\0b")),
+            Shape::MultiFull => mb.push_param3(&hs[0], TripWire, &hs[0]),
+            Shape::StructFull => mb.push_param((&hs[0], TripWire, &hs[0])),
         });
+        set_nofile_soft(nofile_before);
+        if matches!(shape, Shape::MultiFull | Shape::StructFull) {
+            self.hits.push("push_dup_emfile".into());
+        }
         drop(hs);
         let ok = match r {
             Ok(Ok(())) => true,
@@ -1260,7 +1334,9 @@ impl<'a> Hist<'a> {
                     continue;
                 }
                 let room = max_fds - have;
-                let shape = match rng.below(14) {
+                let shape = match rng.below(16) {
+                    14 => Shape::MultiFull,
+                    15 => Shape::StructFull,
                     0 | 1 => Shape::Plain,
                     2 => Shape::Raw,
                     3 => Shape::Struct,
@@ -1285,7 +1361,7 @@ impl<'a> Hist<'a> {
                         continue;
                     }
                     let mut items: Vec<ItemE> = (0..n).map(|_| ItemE::H(*rng.pick(&lh))).collect();
-                    if matches!(shape, Shape::MultiBad | Shape::StructBad) {
+                    if matches!(shape, Shape::MultiBad | Shape::StructBad | Shape::MultiFull | Shape::StructFull) {
                         items.push(ItemE::Bad);
                     }
                     OpE::Push { b, items, shape }
@@ -1368,7 +1444,11 @@ impl<'a> Hist<'a> {
                 if lh.is_empty() || self.order.len() >= 28 {
                     continue;
                 }
-                OpE::Dup(*rng.pick(&lh))
+                if rng.chance(1, 3) {
+                    OpE::DupFail(*rng.pick(&lh))
+                } else {
+                    OpE::Dup(*rng.pick(&lh))
+                }
             } else if k < 93 {
                 if lh.is_empty() || lh.len() >= 12 {
                     continue;
